@@ -1,6 +1,7 @@
 import FimVerif.Proofs.Lemmas.C17Script
 import FimVerif.Proofs.Lemmas.C17Cfg
 import FimVerif.Proofs.Lemmas.C17Sym
+import FimVerif.Proofs.Lemmas.C17SymEdit
 import FimVerif.Proofs.Lemmas.C17Val
 import FimVerif.Generated.DiffCfg
 /-!
@@ -334,6 +335,20 @@ theorem node_modified_symm (a b : Node V) (ha : a.Wf) (hb : b.Wf) (hk : Node.Kin
   · unfold selfMod
     rw [propDiff_comm b.props a.props]
     split <;> rfl
+
+/-- for the pairs the property quantifies over - a sliver and an edited copy of it - the kinds agree by themselves: whatever a
+non-conflicting script does, old→new and new→old list the same elements as modified with the same flags -/
+theorem svc_modified_symm_edit (sc : SvcScript V) (s : Svc V) (hs : s.Wf) (hb : (applySvc sc s).Wf) (hnc : sc.NC s) :
+    (∀ k f, (k, f) ∈ (rep (svcDiff s (applySvc sc s))).modIfs ↔ (k, f) ∈ (rep (svcDiff (applySvc sc s) s)).modIfs) ∧
+    (rep (svcDiff s (applySvc sc s))).modSvcs.map Prod.snd = (rep (svcDiff (applySvc sc s) s)).modSvcs.map Prod.snd :=
+  svc_modified_symm s (applySvc sc s) hs hb (kindsAgree_applySvc sc s hs.1 hnc)
+
+theorem node_modified_symm_edit (sc : NodeScript V) (n : Node V) (hn : n.Wf) (hb : (applyNode sc n).Wf) (hnc : sc.NC n)
+    (x y : Option TDiff) (hx : nodeDiff n (applyNode sc n) = .ok x) (hy : nodeDiff (applyNode sc n) n = .ok y) :
+    (∀ k f, (k, f) ∈ (rep x).modComps ↔ (k, f) ∈ (rep y).modComps) ∧
+    (∀ k f, (k, f) ∈ (rep x).modSvcs ↔ (k, f) ∈ (rep y).modSvcs) ∧
+    (rep x).modNodes.map Prod.snd = (rep y).modNodes.map Prod.snd :=
+  node_modified_symm n (applyNode sc n) hn hb (kindsAgree_applyNode sc n hn hnc) x y hx hy
 
 -- non-vacuity: the example node against an edited copy of itself
 example : exNode.Wf ∧ (applyNode exScript exNode).Wf ∧ Node.KindsAgree exNode (applyNode exScript exNode) := by decide
